@@ -49,6 +49,14 @@ class UserError(Exception):
     pass
 
 
+class UserInterrupt(BaseException):
+    """an exception that is not an `Exception` (like KeyboardInterrupt / SystemExit): a body left by it did not
+    complete either"""
+
+
+CAUGHT = (Exception, UserInterrupt)
+
+
 EXC_TOKEN = {"SpaActionSelectionError": "AS", "SpaTypeError": "TY", "ValueError": "VAL",
              "AssertionError": "ASSERT", "ValidationError": "NVAL"}
 
@@ -56,7 +64,7 @@ EXC_TOKEN = {"SpaActionSelectionError": "AS", "SpaTypeError": "TY", "ValueError"
 def exc_token(e):
     if e is None:
         return "-"
-    if isinstance(e, UserError):
+    if isinstance(e, (UserError, UserInterrupt)):
         return f"U{e.args[0]}"
     return EXC_TOKEN.get(type(e).__name__, type(e).__name__)
 
@@ -273,7 +281,7 @@ class Runner:
                     raise
                 finally:
                     self.lex.pop()
-        except Exception as e:
+        except CAUGHT as e:
             exc = e
         g = globals_now()
         self.trace.append(("b", bid, exc_token(exc), g, blk.built, len(blk)))
@@ -339,13 +347,13 @@ class Runner:
             elif k == "i":
                 self.ifmax(s[1], s[2], s[3])
             elif k == "x":
-                raise UserError(s[1])
+                raise (UserInterrupt(s[1]) if s[1] % 3 == 2 else UserError(s[1]))
             elif k == "b":
                 self.block(s[1], s[2], s)
             elif k == "t":
                 try:
                     self.run(s[1])
-                except Exception as e:
+                except CAUGHT as e:
                     self.trace.append(("c", exc_token(e)))
 
     def run_top(self, prog):
@@ -353,7 +361,7 @@ class Runner:
             for s in prog:
                 try:
                     self.run([s])
-                except Exception as e:
+                except CAUGHT as e:
                     self.trace.append(("c", exc_token(e)))
         return self
 
